@@ -58,6 +58,10 @@ def cmp : CmpOp → I32 → I32 → Bool
   | .le, a, b => !(b.slt a)
   | .ne, a, b => a != b
 
+/-- `a op b` is `b op.mirror a` -/
+def CmpOp.mirror : CmpOp → CmpOp
+  | .lt => .gt | .gt => .lt | .le => .ge | .ge => .le | .eq => .eq | .ne => .ne
+
 def i32 (k : Int) : I32 := BitVec.ofInt 32 k
 
 def ArithOp.ofString? : String → Option ArithOp
